@@ -2,9 +2,10 @@
 (reference GATT accessory with a scripted pairings reply) for every error x state x field-order cell."""
 from __future__ import annotations
 
+from vt.core import HarnessError as core_HarnessError
 from vt.ref import hap, tlv8
 
-STEPS = {"ip-add": 2, "ip-remove": 2, "ble-add": 2, "ble-remove": 2, "ip-verify-m2": 2, "ip-verify-m4": 4}
+STEPS = {"ip-add": 2, "ip-remove": 2, "ble-add": 2, "ble-remove": 2, "ip-verify-m2": 2, "ip-verify-m4": 4, "ble-frag-verify-m2": 2, "ble-frag-verify-m4": 4}
 
 
 def _reply_items(p):
@@ -148,6 +149,127 @@ def case_ip_verify(p):
     return out
 
 
+FRAG_MODES = ("lone-last", "data+last", "data+data+last", "data-then-plain")
+
+
+def case_ble_frag(p):
+    """A pair-verify reply with an error / wrong step, sent the way a BLE accessory may send pairing replies: wrapped in HAP pairing fragments
+    (one lone FragmentLast; FragmentData .. FragmentLast), or a fragmented honest reply broken off by a plain error reply; through the real
+    drive_pairing_state_machine and fragment reassembly.  Judged like every other cell: never keys, never "done"."""
+    from aiohomekit.controller.ble.client import drive_pairing_state_machine
+    from aiohomekit.exceptions import HomeKitException
+    from aiohomekit.protocol import get_session_keys
+    from vt.env import pairdrv
+    from vt.props import c15
+    from vt.ref import crypto as C
+
+    step, mode = p["step"], p["frag"]
+    cell = dict(p)
+    items = _reply_items(dict(cell, step="ip-verify-m2" if step == "ble-frag-verify-m2" else "ip-verify-m4"))
+    seed = p.get("seed", 0)
+    acc = hap.Identity(f"{seed}|c04f", "acc", b"AA:BB:CC:DD:EE:FF")
+    pairing = {"AccessoryPairingID": "AA:BB:CC:DD:EE:FF", "AccessoryLTPK": acc.pk.hex(), "iOSPairingId": "ios", "iOSDeviceLTSK": C.det_bytes(f"{seed}|c04f", "ltsk|ios").hex()}
+    state = {"n": 0, "queue": []}
+
+    def frag(reply, how):
+        if how == "lone-last":
+            return [tlv8.encode([(13, reply)])]
+        k = max(1, len(reply) // (3 if how == "data+data+last" else 2))
+        parts = [reply[i : i + k] for i in range(0, len(reply), k)] or [b""]
+        return [tlv8.encode([(12, x)]) for x in parts[:-1]] + [tlv8.encode([(13, parts[-1])])]
+
+    class Gatt(c15._FakeGatt):
+        async def get_characteristic(self, *a, **k):
+            return c15._Handle()
+
+        async def get_characteristic_iid(self, h):
+            return 10
+
+        async def write_gatt_char(self, handle, data, response):
+            await super().write_gatt_char(handle, data, response)
+            if self.expect is None and self.bodies:
+                body = bytes(self.bodies[-1])
+                if state["queue"]:
+                    self.pending = state["queue"].pop(0)  # the controller's acknowledgement of a fragment: next piece
+                    return
+                req = dict(tlv8.decode(body)) if body else {}
+                st = req.get(hap.T_STATE)
+                if st == b"\x01":
+                    honest, shared, acc_pub = hap.pv_m2(acc, C.det_bytes(f"{seed}|c04f", "acc-eph"), bytes(req.get(hap.T_PK, b"")))
+                    state["pv"] = (shared, acc_pub)
+                    if step == "ble-frag-verify-m2":
+                        if mode == "data-then-plain":
+                            pieces = frag(tlv8.encode(honest), "data+last")[:1] + [tlv8.encode(items)]
+                        else:
+                            pieces = frag(tlv8.encode(items), mode)
+                    else:
+                        pieces = [tlv8.encode(honest)]
+                elif st == b"\x03":
+                    if mode == "data-then-plain":
+                        pieces = [tlv8.encode([(12, b"\x06\x01")]), tlv8.encode(items)]
+                    else:
+                        pieces = frag(tlv8.encode(items), mode)
+                else:
+                    pieces = [tlv8.encode([(hap.T_STATE, b"\x02"), (hap.T_ERROR, b"\x01")])]
+                self.pending = pieces[0]
+                state["queue"] = pieces[1:]
+
+    gatt = Gatt([])
+    with pairdrv.pinned_keys(f"{seed}|c04f"):
+        try:
+            ret, exc = c15._drive(drive_pairing_state_machine(gatt, "0000004E-0000-1000-8000-0026BB765291", get_session_keys(pairing))), None
+        except core_HarnessError:
+            raise
+        except Exception as e:  # noqa: BLE001
+            ret, exc = None, e
+    det = {k: p[k] for k in ("step", "err", "state", "errpos", "frag")}
+    wrong_state = p["state"] not in ("expected", "absent")
+    if p["err"] == "absent" and not wrong_state:
+        return []
+    if exc is None:
+        return [(f"{step}:{'error' if p['err'] != 'absent' else 'wrong-state'}-reply-yields-keys:fragmented:{mode}", dict(det, returned=type(ret).__name__))]
+    if not isinstance(exc, HomeKitException):
+        return [(f"{step}:fails-with-non-library-error:{type(exc).__name__}:fragmented:{mode}", dict(det, err=str(exc)[:160]))]
+    return []
+
+
+def case_ble_resume(p):
+    """A BlePairing that has verified once (so it holds a resumable session) reconnects; the accessory answers the RESUMED pair-verify M1 with the
+    cell's reply.  The operation that needed the session fails; it does not quietly go on."""
+    from aiohomekit.exceptions import HomeKitException
+    from vt.env.blerig import BleRig
+
+    cell = dict(p, step="ip-verify-m2")
+    items = _reply_items(cell)
+    rig = BleRig(seed=p.get("seed", 0))
+    try:
+        try:
+            rig.run(rig.pairing.get_characteristics([(1, 9)]))
+        except Exception as e:  # noqa: BLE001
+            raise core_HarnessError(f"first BLE operation failed in the harness: {e!r}")
+        rig.client.peer_disconnect()
+        rig.loop.run_until_idle()
+        rig.acc.resume_reply_override = items
+        try:
+            ret, exc = rig.run(rig.pairing.get_characteristics([(1, 9)])), None
+        except Exception as e:  # noqa: BLE001
+            ret, exc = None, e
+        det = {k: p[k] for k in ("step", "err", "state", "errpos")}
+        det["resume_requests_seen_by_accessory"] = getattr(rig.acc, "resume_requests", 0)
+        if not getattr(rig.acc, "resume_requests", 0):
+            return []  # the controller did not try to resume: the cell did not happen
+        wrong_state = p["state"] not in ("expected", "absent")
+        if p["err"] == "absent" and not wrong_state:
+            return []
+        if exc is None:
+            return [(f"ble-resume-verify-m2:{'error' if p['err'] != 'absent' else 'wrong-state'}-reply-and-the-operation-completes", dict(det, returned=repr(ret)[:80]))]
+        if not isinstance(exc, HomeKitException):
+            return [(f"ble-resume-verify-m2:fails-with-non-library-error:{type(exc).__name__}", dict(det, err=str(exc)[:160]))]
+        return []
+    finally:
+        rig.close()
+
+
 def case_ble_shutdown(p):
     """add/remove pairing on BLE answered with an error while another task shuts the pairing down: every schedule of {complete the oldest
     suspended GATT operation, complete the newest one, call shutdown()} (each GATT operation, the disconnect included, is suspended at a
@@ -236,6 +358,10 @@ def case_ble_shutdown(p):
 
 
 def case_mgmt_cell(p):
+    if p.get("frag"):
+        return case_ble_frag(p)
+    if p.get("resume"):
+        return case_ble_resume(p)
     if p.get("shutdown"):
         return case_ble_shutdown(p)
     return case_mgmt(dict(step=p["step"], seed=p.get("seed", 0), cells=[p]))
@@ -247,12 +373,20 @@ CASES = {"mgmt": case_mgmt_cell}
 def cells(tier):
     from vt.props.c04 import ERRORS, STATES
 
+    for step in ("ble-frag-verify-m2", "ble-frag-verify-m4"):
+        for err in ERRORS:
+            for state in (STATES if err == "absent" or tier == "thorough" else ["expected", "absent"]):
+                for mode in FRAG_MODES:
+                    yield ("mgmt", dict(step=step, err=err, state=state, subset=[], errpos="last", style="ble", frag=mode))
+    for err in ERRORS:
+        for state in (STATES if err == "absent" or tier == "thorough" else ["expected", "absent"]):
+            yield ("mgmt", dict(step="ble-resume-verify-m2", err=err, state=state, subset=[], errpos="last", style="ble", resume=True))
     for step in ("ble-add", "ble-remove"):
         for err in (["02", "07"] if tier == "quick" else [e for e in ERRORS if e != "absent"]):
             if err in ERRORS:
                 yield ("mgmt", dict(step=step, err=err, state="expected", subset=[], errpos="last", style="ble", shutdown=True))
 
-    for step in STEPS:
+    for step in [s_ for s_ in STEPS if not s_.startswith("ble-frag")]:
         for err in ERRORS:
             for state in STATES:
                 for subset in ([], [hap.T_ID]) if "verify" not in step else ([],):
